@@ -31,7 +31,7 @@ Print Assumptions C15_refresh_ticks_monotone.
 (* window_bound: in any closed time window [t1, t2] the permits granted (sum over the acquire
    calls that returned in the window) are at most burst + (t2 - t1) / refresh + 1. *)
 Theorem C15_window_bound : forall c ls s t1 t2, cfg_ok c -> exec c (init c) ls = Ok s ->
-  start c <= t1 <= t2 ->
+  t1 <= t2 ->
   sum_window (grants s) t1 t2 <= burst c + (t2 - t1) / refresh c + 1.
 Proof. exact window_bound. Qed.
 Print Assumptions C15_window_bound.
@@ -40,7 +40,7 @@ Print Assumptions C15_window_bound.
    RPC layer needs, because a stream's OPEN is sent while its permit is held and the permit is
    dropped at that instant. *)
 Theorem C15_consume_window_bound : forall c ls s t1 t2, cfg_ok c -> exec c (init c) ls = Ok s ->
-  start c <= t1 <= t2 ->
+  t1 <= t2 ->
   sum_window (drops s) t1 t2 <= burst c + (t2 - t1) / refresh c + 1.
 Proof. exact consume_window_bound. Qed.
 Print Assumptions C15_consume_window_bound.
@@ -81,7 +81,7 @@ Proof. exact settle_quiescent. Qed.
 Print Assumptions C15_settle_quiescent.
 
 Theorem C15_script_bounds : forall c os s t1 t2, cfg_ok c -> run_ops c (init c) os = Ok s ->
-  start c <= t1 <= t2 ->
+  t1 <= t2 ->
   sum_window (grants s) t1 t2 <= burst c + (t2 - t1) / refresh c + 1 /\
   sum_window (drops s) t1 t2 <= burst c + (t2 - t1) / refresh c + 1.
 Proof. exact script_window_bound. Qed.
@@ -102,7 +102,7 @@ Print Assumptions C15_deadline_exact.
    or is aborted) the OPENs in any window are within the rate and the simultaneously open
    transient streams (= calls rpc::Server::serve has in flight) are at most n. *)
 Theorem C15_rpc_rate_bound : forall c n ls s t1 t2, cfg_ok c -> rexec c (rinit c n) ls = Ok s ->
-  start c <= t1 <= t2 ->
+  t1 <= t2 ->
   count_window (opens s) t1 t2 <= burst c + (t2 - t1) / refresh c + 1 /\ (n_open s <= n)%nat.
 Proof. exact rpc_rate_bound. Qed.
 Print Assumptions C15_rpc_rate_bound.
@@ -117,12 +117,12 @@ Print Assumptions C15_rpc_no_panic.
    is C14 open_streams_bounded.  Kept as a definition; its proof is the conjunction below. *)
 Definition C15_full : Prop :=
   forall c, cfg_ok c ->
-    (forall ls s t1 t2, exec c (init c) ls = Ok s -> start c <= t1 <= t2 ->
+    (forall ls s t1 t2, exec c (init c) ls = Ok s -> t1 <= t2 ->
        sum_window (grants s) t1 t2 <= burst c + (t2 - t1) / refresh c + 1) /\
     (forall ls s, exec c (init c) ls = Ok s -> StronglySorted grant_order (grants s)) /\
     (forall ls s id s', exec c (init c) ls = Ok s -> step c s (LCancel id) = Ok s' ->
        st s' = st s /\ held s' = held s /\ grants s' = grants s /\ drops s' = drops s) /\
-    (forall n ls s t1 t2, rexec c (rinit c n) ls = Ok s -> start c <= t1 <= t2 ->
+    (forall n ls s t1 t2, rexec c (rinit c n) ls = Ok s -> t1 <= t2 ->
        count_window (opens s) t1 t2 <= burst c + (t2 - t1) / refresh c + 1 /\ (n_open s <= n)%nat).
 
 Theorem C15_full_model : C15_full.
